@@ -17,7 +17,7 @@ RULE = ("all (m,n) in 1..5 x 1..5 for every list-capable class (SO2, SE2, SO3, S
         "oracle (metamorphic): element i of the result = the same operator on single-valued operands holding left[i or 0] and "
         "right[i or 0]; m != n both > 1 => ValueError; per-value accessors / unary methods on M values = the single-valued "
         "call on each element. Non-trivial: m != n or both > 1.")
-RULE = RULE + probes.RULE_TEXT + (probes.AUG_TEXT if PROPERTY_ID in probes.AUG_PROPS else "") + probes.VARIANT_TEXT
+RULE = RULE + probes.RULE_TEXT + (probes.AUG_TEXT if PROPERTY_ID in probes.AUG_PROPS else "") + probes.VARIANT_TEXT + probes.OWN_TEXT
 ASSUMPTIONS = ["the single-valued operation is the reference: its correctness is decided by C02/C03/C05/C06, here only the broadcasting layer is judged",
                "eul()/rpy() of M poses: both the documented (M,3) and the implemented (3,M) layouts are accepted",
                "methods without a multi-value claim in docs or code (Quaternion.log/exp/matrix, angvec, n/o/a) are not called on sequences"]
@@ -46,7 +46,7 @@ def s_binop():
         "kind": st.just("binop"), "cls": st.just(cn), "op": st.sampled_from(BINOPS[cn]),
         "m": st.integers(1, 5), "n": st.integers(1, 5),
         "pool": st.lists(elem_strategy(cn), min_size=10, max_size=10),
-        "eqmask": st.lists(st.booleans(), min_size=5, max_size=5)}))
+        "eqmask": st.lists(st.booleans(), min_size=5, max_size=5), "eqnear": st.sampled_from([False, False, False, True])}))
 
 
 def default_pool(cn, size=10):
@@ -66,6 +66,9 @@ def gen_cells(tier):
                         continue
                     yield {"kind": "binop", "cls": cn, "op": op, "m": m, "n": n, "pool": default_pool(cn),
                            "eqmask": [True, False, True, False, False]}
+                    if op in ("==", "!=") and cn in ("SE3", "SE2"):
+                        yield {"kind": "binop", "cls": cn, "op": op, "m": m, "n": n, "pool": default_pool(cn),
+                               "eqmask": [True, False, True, False, False], "eqnear": True}
             # longer sequences than the 1..5 of the statement's quantifier (a vectorised path may switch with the length)
             for m, n in ((9, 9), (1, 9), (9, 1), (17, 17), (9, 4)):
                 if op in ("**", "point", "scalar*", "*scalar", "scalar+", "scalar-") and n != 1:
@@ -242,7 +245,7 @@ def same(a, b, tol=1e-12):
 
 
 def check_case(case):
-    if case.get("kind") in ("hist", "aug", "variant"):
+    if case.get("kind") in ("hist", "aug", "variant", "own"):
         return probes.run(case, PROPERTY_ID)
     return {"binop": _binop, "unary": _unary, "ctor": _ctor}[case["kind"]](case)
 
@@ -256,6 +259,15 @@ def _binop(case):
     if op in ("==", "!="):
         # right operand: some elements equal to the left ones
         rv = [(lv[i % m] if case["eqmask"][i % len(case["eqmask"])] else pool[half + i]) for i in range(n)]
+        if case.get("eqnear") and cn in ("SE3", "SE2"):
+            # pairs whose difference sits on the boundary of the (relative) equality tolerance: x = 1e6 against x + 10.00005.
+            # Which answer is right is not at stake here - only that element i of the answer is the single-valued answer
+            lv = [np.array(v, dtype=float) for v in lv]
+            for v in lv:
+                v[0, -1] = 1e6
+            rv = [np.array(lv[i % m], dtype=float) for i in range(n)]
+            for i, v in enumerate(rv):
+                v[0, -1] += (10.00005, -10.00005, 9.99995, 10.0001)[i % 4]
     else:
         rv = pool[half:half + n]
     left = mk(cn, lv)
@@ -487,11 +499,25 @@ def _unary(case):
                     if not same(r.data[i], w.data[0]):
                         c.fail("exp/vector/elements", "exp(thetas)[%d] differs from exp(thetas[%d])" % (i, i), index=i)
                         break
+        # the same rule in degrees, for the general twist and for a purely translational (prismatic) one
+        import contextlib
+        import io
+        v0 = np.asarray(vals[0], dtype=float)
+        pr = np.r_[v0[:3] / max(1e-9, float(np.linalg.norm(v0[:3]))), 0.0, 0.0, 0.0] if cn == "Twist3" else np.r_[v0[:2] / max(1e-9, float(np.linalg.norm(v0[:2]))), 0.0]
+        for label, S1 in (("general", singles[0]), ("prismatic", mk(cn, [pr]))):
+            with contextlib.redirect_stdout(io.StringIO()):
+                ok, r = c.lib("exp/vector/deg", lambda: S1.exp([20.0, -35.0, 80.0], "deg"))
+                if ok and hasattr(r, "data") and len(r) == 3:
+                    for i, a_ in enumerate((20.0, -35.0, 80.0)):
+                        ok1, w = c.lib("exp/scalar/deg", lambda: S1.exp(a_, "deg"))
+                        if ok1 and not same(r.data[i], w.data[0]):
+                            c.fail("exp/vector/deg/elements", "%s twist: exp(thetas, 'deg')[%d] differs from exp(thetas[%d], 'deg')" % (label, i, i), index=i, twist=label)
+                            break
     return c.out
 
 
 def classify(case):
-    if case.get("kind") in ("hist", "aug", "variant"):
+    if case.get("kind") in ("hist", "aug", "variant", "own"):
         return probes.classify(case)
     lab = {"kind:" + case["kind"]: True, "cls:" + case["cls"]: True}
     if case["kind"] == "binop":
